@@ -245,3 +245,28 @@ func VerifC20PartialAlpha() {
 	zzverif.Assert(ga == a, "alpha-preserved")
 	zzverif.Reach("end")
 }
+
+// VerifC20SixelCells: Sixel.Resize computes its cell size inside its encoding goroutine; the
+// goroutine is run here (the main goroutine waits for the Redraw it posts), quantiser and
+// sixel encoder included, on a few small images: the reported cell size is the resized pixel
+// size rounded up per dimension with that dimension's own cell size, within the box.
+func VerifC20SixelCells() {
+	wPix := []int{7, 15, 20}[zzverif.Choose("wpix", 3)]
+	hPix := []int{8, 40}[zzverif.Choose("hpix", 2)]
+	box := [][2]int{{2, 2}, {5, 2}}[zzverif.Choose("box", 2)]
+	geom := [][2]int{{10, 20}, {7, 15}}[zzverif.Choose("geom", 2)]
+	cw, ch := geom[0], geom[1]
+	vx := verifBareVaxis(2, 2)
+	vx.queue = make(chan Event, 4)
+	vx.winSize = Resize{Cols: 10, Rows: 10, XPixel: 10 * cw, YPixel: 10 * ch}
+	s := &Sixel{vx: vx, img: image.NewRGBA(image.Rect(0, 0, wPix, hPix)), buf: bytes.NewBuffer(nil)}
+	zzverif.Terminates(4000000)
+	s.Resize(box[0], box[1])
+	<-vx.queue // the Redraw posted when encoding is done
+	gotW, gotH := s.CellSize()
+	out := resizeImage(verifImg{wPix, hPix}, box[0], box[1], cw, ch)
+	nw, nh := out.Bounds().Max.X, out.Bounds().Max.Y
+	zzverif.Assert(gotW == verifCeilDiv(nw, cw) && gotH == verifCeilDiv(nh, ch), "sixel-cell-size-is-pixel-size-rounded-up-per-dimension")
+	zzverif.Assert(gotW <= box[0] && gotH <= box[1], "sixel-cell-size-fits-the-box")
+	zzverif.Reach("end")
+}
